@@ -2123,9 +2123,14 @@ fn do_render_node<T: Write, D: TextDecorator>(
             pending2(children, move |renderer: &mut TextRenderer<D>, _| {
                 let sub_builder = renderer.pop();
 
-                renderer.start_block()?;
-                renderer.append_subrender(sub_builder, repeat(&prefix[..]))?;
-                renderer.end_block();
+                // A quote holding nothing but collapsible white space renders
+                // nothing, like a quote without children (which is dropped
+                // when the tree is built).
+                if !sub_builder.empty() {
+                    renderer.start_block()?;
+                    renderer.append_subrender(sub_builder, repeat(&prefix[..]))?;
+                    renderer.end_block();
+                }
                 pushed_style.unwind(renderer);
                 Ok(Some(None))
             })
